@@ -257,6 +257,14 @@ def real_cost_assignment(arch, pp):
         return "%s: %s" % (type(e).__name__, str(e)[:160])
 
 
+def real_outcome(arch, pp):
+    mm, sem = c15_data.load(arch)
+    try:
+        return "returns %r" % (mm.average_port_pressure(pp),)
+    except Exception as e:
+        return "raises %s: %s" % (type(e).__name__, str(e)[:160])
+
+
 def classify(err, meta_repr):
     if err is None:
         return "ill-formed-but-no-crash"
@@ -428,6 +436,12 @@ Eval vm_compute in (String.concat "," (map string_of_nat (firstn 20 (bad_indices
         if not good:
             idx = [int(x) for x in bad.split(",") if x]
             detail = "disagreeing cases: " + "; ".join("#%d %r" % (i, cases[i]) for i in idx[:5])
+            for i in idx[:1]:
+                out = real_outcome(a, cases[i])
+                ctx.violation("average_port_pressure-differs-from-model",
+                              "%s: MachineModel.average_port_pressure(%r) -> %s, which is not what the verified model of the function "
+                              "gives (unknown port -> KeyError, wrong shape -> TypeError/ValueError, else cycles/len(ports) per port)" % (
+                                  a, cases[i], out), {"kind": "avg", "arch": a, "pp": json.dumps(cases[i]), "real": out})
         ctx.obligation("correspondence %s: avg_pressure model = MachineModel.average_port_pressure on %d assignments "
                        "(shipped + seeded malformed)" % (a, len(cases)), "correspondence", good, detail)
     ctx.sample({"avg_pressure correspondence": "per model: all distinct shipped assignments + %d seeded variants" % ctx.n(40, 300)})
@@ -443,14 +457,14 @@ def costing_sweep(ctx, archs, diags, metas):
         if ctx.tier == "thorough":
             sel = list(range(n))
         else:
-            sel = sorted(ctx.rng.sample(range(n), min(n, max(8, n // 12))))
+            sel = sorted(ctx.rng.sample(range(n), min(n, max(8, n // 4))))
         sampled[a] = sel
         for c in range(0, len(sel), 250):      # chunks, so that the big files do not serialise the sweep
             jobs.append(a)
             cmds.append([vlib.PY, os.path.join(vlib.VERIF, "harness", "c15_cost.py"), c15_data.data_dir(), a,
                          ",".join(str(i) for i in sel[c:c + 250])])
     total = 0
-    hows = {"matched": 0, "shadowed": 0, "synth": 0}
+    hows = {}
     per_arch = {a: {"n": 0, "fails": [], "ok": True, "err": ""} for a in archs}
     for a, (rc, out, dt) in zip(jobs, par(cmds, env=env)):
         try:
@@ -463,8 +477,8 @@ def costing_sweep(ctx, archs, diags, metas):
             continue
         per_arch[a]["n"] += r["n"]
         per_arch[a]["fails"] += r["fails"]
-        for k in hows:
-            hows[k] += r["hows"].get(k, 0)
+        for k, v in r["hows"].items():
+            hows[k] = hows.get(k, 0) + v
     for a in archs:
         r = per_arch[a]
         if not r["ok"]:
@@ -489,6 +503,29 @@ def costing_sweep(ctx, archs, diags, metas):
             a, r["n"]), "correspondence", not unexpected, "; ".join("#%d %s" % (i, e) for i, h, e in unexpected[:5]))
         for i in sampled[a][:3]:
             ctx.nontriv("cost/%s/%d" % (a, i))
+    # ISA databases: every entry through the real assign_src_dst, on the first model of that ISA
+    first = {}
+    for a in archs:
+        first.setdefault(c15_data.load(a)[0].get_ISA().lower(), a)
+    icmds = [[vlib.PY, os.path.join(vlib.VERIF, "harness", "c15_cost.py"), c15_data.data_dir(), a, "isa"] for a in first.values()]
+    for (isa, a), (rc, out, dt) in zip(first.items(), par(icmds, env=env)):
+        try:
+            r = json.loads(out.strip().splitlines()[-1])
+        except Exception:
+            r = {"ok": False, "err": out[-1500:]}
+        if not r.get("ok"):
+            ctx.obligation("ISA sweep ran on isa/%s" % isa, "harness", False, r.get("err", "") + r.get("trace", ""))
+            continue
+        ctx.count(r["n"])
+        meta = metas.get(("isa", isa), {"entries": []})
+        coq_bad = set(diags.get(("isa", isa), {}).get("bad", []))
+        unexpected = [(i, h, e) for i, h, e in r["fails"] if i not in coq_bad]
+        for i, h, e in unexpected[:3]:
+            nm, ops, ti = meta["entries"][i] if i < len(meta["entries"]) else ("?", [], 0)
+            ctx.violation("isa-%s:assign_src_dst-raises" % isa, "isa/%s.yml entry #%d %s %s: assign_src_dst on a synthesised instruction raises %s (%s)" % (
+                isa, i, nm, ops, e, h), {"kind": "isa-entry", "isa": isa, "index": i, "name": nm, "operands": ops})
+        ctx.obligation("isa/%s: assign_src_dst raises on no entry accepted by the Coq checker (%d entries, %s)" % (isa, r["n"], r["hows"]),
+                       "correspondence", not unexpected, "; ".join("#%d %s" % (i, e) for i, h, e in unexpected[:5]))
     ctx.coverage["costed_entries"] = total
     ctx.coverage["costed_how"] = hows
     ctx.log("costing sweep: %d entries (%s) in %.1fs" % (total, hows, time.time() - t))
@@ -615,6 +652,16 @@ def replay(ctx, obj):
         ctx.count()
         ctx.log("replay: %s %s = %r -> %s" % (r["arch"], r["key"], gen_c15.plain(pp), err))
         if err:
+            ctx.violation(obj["key"], obj["what"], r)
+        return
+    if kind == "avg":
+        pp = json.loads(r["pp"])
+        if isinstance(pp, dict):
+            pp = {int(k): v for k, v in pp.items()}
+        out = real_outcome(r["arch"], pp)
+        ctx.count()
+        ctx.log("replay: average_port_pressure(%r) on %s %s (recorded: %s)" % (pp, r["arch"], out, r["real"]))
+        if out == r["real"]:
             ctx.violation(obj["key"], obj["what"], r)
         return
     if kind == "zero-tp":
